@@ -69,6 +69,8 @@ struct Battery {
       ctx("cbor_serialize", it);
       unsigned char* buf = (unsigned char*)malloc(sz);
       size_t wr = cbor_serialize(it, buf, sz); mix(wr); mix(hash_bytes(buf, wr));
+      ctx("cbor_serialize_<type>", it);
+      size_t wt = impl_serialize_typed(it, buf, sz); mix(wt); mix(hash_bytes(buf, wt));
       free(buf);
       if (with_alloc) {
         ctx("cbor_serialize_alloc", it);
